@@ -14,13 +14,14 @@ use scroll::{Pread, Pwrite};
 use std::any::Any;
 use std::collections::HashSet;
 
-const NTYPES: u8 = 17;
-const TY_NAMES: [&str; 17] = [
+const NTYPES: u8 = 19;
+const TY_NAMES: [&str; 19] = [
     "u8", "u16", "u32", "u64", "Directory", "Location", "MemoryDescriptor", "Thread", "ThreadName", "Module", "Header",
     "ExceptionStream", "SystemInfo", "ContextAmd64", "MemoryInfo", "HandleDescriptor", "LinkMap",
+    "DsoDebug", "HandleDataStream",
 ];
 // serialized sizes, pinned independently of the crate (published minidump layout)
-const TY_SIZES: [usize; 17] = [1, 2, 4, 8, 12, 8, 16, 48, 12, 108, 32, 168, 56, 1232, 48, 32, 20];
+const TY_SIZES: [usize; 19] = [1, 2, 4, 8, 12, 8, 16, 48, 12, 108, 32, 168, 56, 1232, 48, 32, 20, 36, 16];
 
 macro_rules! with_ty {
     ($id:expr, $T:ident => $body:expr) => {
@@ -42,6 +43,8 @@ macro_rules! with_ty {
             14 => { type $T = MDMemoryInfo; $body }
             15 => { type $T = MDRawHandleDescriptor; $body }
             16 => { type $T = MDRawLinkMap; $body }
+            17 => { type $T = MDRawDebug; $body }
+            18 => { type $T = MDRawHandleDataStream; $body }
             _ => unreachable!(),
         }
     };
@@ -392,6 +395,26 @@ fn alphabet(core_only: bool) -> Vec<Op> {
     v
 }
 
+/// Every entry point x every format type (shallow alphabet: the deep alphabets sample types per entry point).
+fn type_alphabet() -> Vec<Op> {
+    let mut v = Vec::new();
+    for t in 0..NTYPES {
+        v.push(Op::Alloc(t));
+        v.push(Op::AllocVal(t, 1));
+        for n in [0u8, 1, 3] {
+            v.push(Op::AllocArray(t, n));
+            v.push(Op::FromIter(t, n, 5));
+        }
+    }
+    for t in [0u8, 1, 2, 3, 5, 6] {
+        for n in [0u8, 1, 3] {
+            v.push(Op::FromArray(t, n, 4));
+        }
+    }
+    v.extend([Op::SetValue(0, 2), Op::SetValue(1, 3), Op::SetAt(0, 0, 6), Op::SetAt(0, 1, 7), Op::SetAt(1, 2, 9), Op::Bytes(1), Op::Str(2)]);
+    v
+}
+
 static FILL_LATER: std::sync::atomic::AtomicU64 = std::sync::atomic::AtomicU64::new(0);
 
 /// a fill-later op that targets a slot/array which is NOT the last thing in the buffer
@@ -609,7 +632,7 @@ fn self_check_roundtrip(rep: &mut Report) {
 }
 
 pub fn run(ctx: &Ctx, rep: &mut Report) {
-    rep.rule = "SEQ: breadth-first over all histories of mem_writer operations up to the depth bound, re-executed on a fresh Buffer, dedup on (buffer bytes, slot table, array table); plus every string of <=3 code points over a 10-letter alphabet after 3 prefix lengths. nontrivial = distinct (deduplicated state, op) transitions in which a fill-later op (set_value/set_value_at) targets a slot that is followed by other data".into();
+    rep.rule = "SEQ: breadth-first over all histories of mem_writer operations up to the depth bound (full 53-letter alphabet, 20-letter core, and a ~170-letter alphabet of every entry point x every one of the 19 format types at depth 2 (thorough 3)), re-executed on a fresh Buffer, dedup on (buffer bytes, slot table, array table); plus every string of <=3 code points over a 10-letter alphabet after 3 prefix lengths. nontrivial = distinct (deduplicated state, op) transitions in which a fill-later op (set_value/set_value_at) targets a slot that is followed by other data".into();
     rep.assume("scroll's derived Pread is the inverse of its Pwrite for the POD format structs (checked at start-up for every type; primitives and three structs are checked byte-exact against a hand encoder)");
     if let Some(case) = &ctx.replay {
         if let Some(h) = case.get("history").and_then(|h| h.as_array()) {
@@ -637,6 +660,7 @@ pub fn run(ctx: &Ctx, rep: &mut Report) {
     let (d_full, d_core) = if ctx.tier.is_thorough() { (4, 6) } else { (4, 5) };
     bfs(rep, &full, d_full, "full_alphabet");
     bfs(rep, &core, d_core, "core_alphabet");
+    bfs(rep, &type_alphabet(), if ctx.tier.is_thorough() { 3 } else { 2 }, "every_entry_point_x_every_type");
     rep.nontrivial = FILL_LATER.load(std::sync::atomic::Ordering::Relaxed);
     // strings
     let letters: [char; 10] = ['a', '\u{e9}', '\u{20ac}', '\u{0}', '\u{d7ff}', '\u{e000}', '\u{ffff}', '\u{10000}', '\u{1f600}', '\u{10ffff}'];
